@@ -44,6 +44,8 @@ type QCfg struct {
 	Channels        []string `json:"channels"` // channel name pool
 	YieldProb       uint32   `json:"yield_prob"`
 	YieldPrefixes   []string `json:"yield_prefixes,omitempty"`
+	LongProb        uint32   `json:"long_delay_prob,omitempty"` // x/65536 per yield site visit, at most one long delay per step
+	LongSpin        int      `json:"long_delay_spin,omitempty"` // how many rounds the delayed goroutine stays behind all others
 	ShortReads      int      `json:"short_reads"` // 0 off, else 1/n chance to cut a read
 	TLS             bool     `json:"tls"`
 	TopicDiskFaults int      `json:"topic_disk_faults,omitempty"` // one in N writes to a topic's queue file fails (0 = never)
